@@ -211,8 +211,10 @@ def gen_cases(tier, seed):
                         continue        # a single layer with neither radius nor thickness is not a valid configuration
                     for mm in MASSMODES:
                         for sl in SLICES:
+                            # the slices-10 member of every configuration is additionally radius-scaled once (factor rotates)
+                            sc = (0.1, 0.5, 2.0, 10.0)[(len(out) // 2 + seed) % 4] if sl == SLICES[0] else None
                             out.append(dict(kind='gen', n=n, types=[TYPES[i] for i in p], shape=s, style=style, massmode=mm,
-                                            slices=sl, R=RMENU[(si + n + seed) % len(RMENU)], f=SEEDF[seed % len(SEEDF)]))
+                                            slices=sl, R=RMENU[(si + n + seed) % len(RMENU)], f=SEEDF[seed % len(SEEDF)], scale=sc))
     return out
 
 
@@ -376,7 +378,42 @@ def run_case(c):
     if bad:
         viol.append(('C16/build/generated/differs-from-configuration', dict(first=bad[0], n=len(bad))))
     obs = (c['n'], tuple(c['types']), c['shape'], c['slices'], repr(float(w.mass)), tuple(repr(float(L.radius)) for L in w.layers))
+    if c.get('scale') is not None:
+        viol.extend(_scale_leg(w, float(c['scale']), meas))
+        obs = obs + (c['scale'],)
     return dict(status='pass', viol=viol, obs=obs, meas=meas)
+
+
+def _scale_leg(w, s, meas):
+    """scale_from_world(w, radius_scale=s) on a freshly built generated world: terminates, inputs untouched, distinct name, every
+    length x s, volume fractions preserved, build invariants on the result."""
+    from TidalPy.structures import scale_from_world
+    viol = []
+    snap = _snapshot(w)
+    geo = _geometry(w)
+    st, res, nlines = run_budgeted(lambda: scale_from_world(w, radius_scale=s))
+    if st == 'budget':
+        return [(f'C16/scale_from_world/non-termination/{_classify_hang(res, w)}', dict(scale=s, where=res))]
+    if st == 'exc':
+        cls = type(res).__name__
+        if isinstance(res, KeyError) and res.args == ('radius',) and any('radius' not in lc for lc in w.config['layers'].values()):
+            cls = 'KeyError/layer-configured-without-radius'       # narrow signature of the known defect
+        return [(f'C16/scale_from_world/exception/{cls}', dict(scale=s, msg=str(res)[:200],
+                                                                 layer_config_keys={k: sorted(x for x in v if x in ('radius', 'thickness'))
+                                                                                    for k, v in w.config['layers'].items()}))]
+    if nlines * 10 > STEP_BUDGET:
+        raise RuntimeError(f'step budget margin lost: scale_from_world executed {nlines} traced lines (budget {STEP_BUDGET})')
+    new = res
+    if _snapshot(w) != snap:
+        viol.append(('C16/scale_from_world/mutates-parent-world', dict(scale=s, config_changed=_canon(w.config) != snap[1])))
+    if new.name == w.name:
+        viol.append(('C16/scale_from_world/name-not-distinct/other', dict(scale=s, name=new.name)))
+    bad = _scale_check(geo, _geometry(new), s, meas)
+    if bad:
+        viol.append(('C16/scale_from_world/lengths-or-volume-fractions', dict(scale=s, first=bad[0], n=len(bad))))
+    for what, det in build_invariants(new, _derived(new), meas):
+        viol.append((f'C16/scale_from_world/result/{what}', dict(scale=s, **det)))
+    return viol
 
 
 # ----------------------------------------------------------------------------------------------------------------
@@ -659,7 +696,8 @@ def run(ctx):
     res = run_lattice(ctx, 'mc.props.C16:run_case', cases, chunk=64,
                       rule='generated layered family: #layers 1..6 x type pattern over {iron,rock,ice} '
                            f'({"all" if ctx.thorough else "monotone"} patterns) x 5 radius partitions x 3 geometry styles x 4 mass modes x '
-                           'slices {10,40}; distinct = distinct (pattern, partition, slices, built mass, built layer radii)',
+                           'slices {10,40}, the slices-10 member of each additionally radius-scaled by one of {0.1,0.5,2,10}; '
+                           'distinct = distinct (pattern, partition, slices, built mass, built layer radii, scale)',
                       exhaustive=True)
     _merge_meas(worst, res)
     ev1, dn1 = ctx.coverage['evaluations'], ctx.coverage['distinct_nontrivial']
